@@ -781,6 +781,33 @@ func execRegistry(ops []string) []string {
 			res = e.cadd(m)
 		case "remove":
 			res = errObs(e.ses.RemoveTorrent(e.refID(atoi(m["t"])), true))
+		case "removeheld":
+			// An add that arrives while the removal of torrent t is under way: the removal is held where it deletes
+			// the record (the harness holds bbolt's writer lock), i.e. after the registry entry is gone and before the
+			// torrent is closed; the add picks its port meanwhile. The op's result is the add's.
+			id := e.refID(atoi(m["t"]))
+			tx, err := torrent.VerifDB(e.ses).Begin(true)
+			if err != nil {
+				res = "err:harness"
+				break
+			}
+			rmDone := make(chan struct{})
+			go func() { _ = e.ses.RemoveTorrent(id, true); close(rmDone) }()
+			time.Sleep(30 * time.Millisecond) // the removal has reached the database
+			addDone := make(chan string, 1)
+			go func() { addDone <- e.add(m) }()
+			time.Sleep(30 * time.Millisecond) // the add has its port (or has been refused) and waits for the database, too
+			_ = tx.Rollback()
+			select {
+			case res = <-addDone:
+			case <-time.After(10 * time.Second):
+				res = "hang"
+			}
+			select {
+			case <-rmDone:
+			case <-time.After(10 * time.Second):
+				res = "hang"
+			}
 		case "start", "stop", "addtracker", "bump":
 			t := e.ses.GetTorrent(e.refID(atoi(m["t"])))
 			if t == nil {
@@ -1012,6 +1039,21 @@ func genRegistry(r *Rng, n int, tier string) []Case {
 				fmt.Sprintf("reopen resume=%s maxpieces=1", b01(r.Bool())),
 				fmt.Sprintf("add kind=t tid=2 ih=%s name=n2 trk=- ws=- id=- stopped=1 sad=0 sam=0 seq=0 np=1", regInfoHashN(2, "n2", 1)),
 				fmt.Sprintf("reopen resume=%s", b01(r.Bool()))}
+			cases = append(cases, Case{ID: fmt.Sprintf("registry-%d", i+1), Ops: ops})
+			continue
+		} else if d < 8 && d >= 6 {
+			// every port of the range is taken; one torrent is being removed (the removal is held between the registry
+			// and the database) when another add arrives: the port of the torrent that is still live is not to be had
+			k := r.Range(1, 2)
+			ops = []string{fmt.Sprintf("open lo=%d hi=%d resume=1 plant=-", lo, lo+k)}
+			for j := 1; j <= k; j++ {
+				nm := fmt.Sprintf("n%d", j)
+				ops = append(ops, fmt.Sprintf("add kind=t tid=%d ih=%s name=%s trk=- ws=- id=- stopped=%s sad=0 sam=0 seq=0 np=1", j, regInfoHashN(j, nm, 1), nm, b01(r.Bool())))
+			}
+			ops = append(ops,
+				fmt.Sprintf("removeheld t=%d kind=t tid=7 ih=%s name=n4 trk=- ws=- id=- stopped=1 sad=0 sam=0 seq=0 np=1", r.Range(1, k), regInfoHashN(7, "n4", 1)),
+				fmt.Sprintf("add kind=t tid=8 ih=%s name=n3 trk=- ws=- id=- stopped=1 sad=0 sam=0 seq=0 np=1", regInfoHashN(8, "n3", 1)),
+				fmt.Sprintf("reopen resume=%s", b01(r.Bool())))
 			cases = append(cases, Case{ID: fmt.Sprintf("registry-%d", i+1), Ops: ops})
 			continue
 		} else if d < 6 {
